@@ -501,10 +501,224 @@ async fn run_bearer2(rng: &mut Rng, run: u64, quota: usize, limits: Limits) -> V
     out
 }
 
+/// new stack through the REAL interface: `TcpInterface` (outbound) or `TcpListenerInterface` (inbound) own
+/// the per-peer writer mutex; `dispatch(Send)` only queues a future. Messages (several of them larger than
+/// one segment, on the same and on different channels) are dispatched back-to-back (`burst`), with the
+/// interface polled now and then (`mixed`), or one at a time waiting for `Sent` (`paced`), towards a slow
+/// raw reader (small socket buffers, delayed start) that reassembles with read_full_msgs.
+/// `send` ticket: before dispatch(Send); `recv` ticket: after read_full_msgs returned the message.
+async fn run_iface(rng: &mut Rng, run: u64, quota: usize, limits: Limits, listener_mode: bool, pattern: &'static str) -> Vec<Value> {
+    use futures::{FutureExt, StreamExt};
+    use pallas_network2::bearer::Bearer as B2;
+    use pallas_network2::interface::{TcpInterface, TcpListenerInterface};
+    use pallas_network2::{Interface, InterfaceCommand, InterfaceEvent, PeerId};
+    let sh = Arc::new(Shared { ticket: Arc::new(AtomicU64::new(1)), log: Arc::new(Mutex::new(Vec::new())) });
+    let protos = [n2::blockfetch::CHANNEL_ID, n2::txsubmission::CHANNEL_ID, n2::chainsync::CHANNEL_ID];
+    let big = |c: u16, blob: Vec<u8>| match c {
+        n2::blockfetch::CHANNEL_ID => AnyMessage::BlockFetch(n2::blockfetch::Message::Block(blob)),
+        n2::txsubmission::CHANNEL_ID => AnyMessage::TxSubmission(n2::txsubmission::Message::ReplyTxs(vec![n2::txsubmission::EraTxBody(6, blob)])),
+        _ => AnyMessage::ChainSync(n2::chainsync::Message::RollForward(
+            n2::chainsync::HeaderContent { variant: 6, byron_prefix: None, cbor: blob },
+            n2::chainsync::Tip(n2::Point::Origin, 5),
+        )),
+    };
+    // plan: runs of 2..4 multi-segment messages on the SAME channel, then another channel, small ones in between
+    let mut msgs: Vec<AnyMessage> = Vec::new();
+    while msgs.len() < quota {
+        let c = *rng.pick(&protos);
+        for _ in 0..rng.range(2, 4) {
+            let n = rng.range(1, 3) as usize * SEG + rng.range(1, 60_000) as usize;
+            msgs.push(big(c, rng.bytes(n)));
+        }
+        if rng.bool() {
+            msgs.push(gen_any_message(*rng.pick(&protos), rng, 1));
+        }
+    }
+    let (srole, rrole) = if listener_mode { ("s", "c") } else { ("c", "s") };
+    let mut chans = Vec::new();
+    for c in protos {
+        chans.push(json!({"side": "A", "proto": c, "role": srole}));
+        chans.push(json!({"side": "B", "proto": c, "role": rrole}));
+    }
+    let expected = Arc::new(AtomicU64::new(u64::MAX));
+    let small = 8 * 1024;
+    // ---- set up the connection; the raw end is `raw`
+    let tool = |e: std::io::Error| -> ! { die(&format!("iface setup: {e}")) };
+    let mk_sock = || {
+        let s = tokio::net::TcpSocket::new_v4().unwrap_or_else(|e| tool(e));
+        s.set_recv_buffer_size(small).unwrap_or_else(|e| tool(e));
+        s.set_send_buffer_size(small).unwrap_or_else(|e| tool(e));
+        s
+    };
+    let any: std::net::SocketAddr = "127.0.0.1:0".parse().unwrap();
+    let mut stalled: Vec<&str> = Vec::new();
+    let raw: tokio::net::TcpStream;
+    let mut ini: Option<TcpInterface<AnyMessage>> = None;
+    let mut lis: Option<TcpListenerInterface<AnyMessage>> = None;
+    let pid: PeerId;
+    if listener_mode {
+        // the interface accepts (its sockets inherit the small buffers of the listening socket), we connect
+        let s = mk_sock();
+        s.bind(any).unwrap_or_else(|e| tool(e));
+        let l = s.listen(4).unwrap_or_else(|e| tool(e));
+        let addr = l.local_addr().unwrap_or_else(|e| tool(e));
+        let mut iface = TcpListenerInterface::<AnyMessage>::new(l);
+        let client = mk_sock();
+        let (r, ev) = tokio::join!(client.connect(addr), tokio::time::timeout(Duration::from_secs(10), iface.next()));
+        raw = r.unwrap_or_else(|e| tool(e));
+        pid = match ev {
+            Ok(Some(InterfaceEvent::Connected(p))) => p,
+            other => die(&format!("iface setup: listener did not report a connection: {other:?}")),
+        };
+        lis = Some(iface);
+    } else {
+        let s = mk_sock();
+        s.bind(any).unwrap_or_else(|e| tool(e));
+        let l = s.listen(4).unwrap_or_else(|e| tool(e));
+        let addr = l.local_addr().unwrap_or_else(|e| tool(e));
+        let mut iface = TcpInterface::<AnyMessage>::new();
+        pid = PeerId { host: "127.0.0.1".to_string(), port: addr.port() };
+        iface.dispatch(InterfaceCommand::Connect(pid.clone()));
+        let (a, ev) = tokio::join!(l.accept(), tokio::time::timeout(Duration::from_secs(10), iface.next()));
+        raw = a.unwrap_or_else(|e| tool(e)).0;
+        match ev {
+            Ok(Some(InterfaceEvent::Connected(_))) => {}
+            other => die(&format!("iface setup: no Connected event: {other:?}")),
+        }
+        ini = Some(iface);
+    }
+    // ---- slow reader on the raw end
+    let (mut r, _keep_w) = B2::Tcp(raw).into_split();
+    let (shr, exp) = (sh.clone(), expected.clone());
+    let start_delay = rng.range(30, 120);
+    let mut rr = Rng::new(rng.next_u64());
+    let reader: Handle = tokio::spawn(async move {
+        tokio::time::sleep(Duration::from_millis(start_delay)).await;
+        let mut partial = std::collections::HashMap::new();
+        let mut got = 0u64;
+        while got < exp.load(Ordering::SeqCst) {
+            if rr.chance(1, 8) {
+                tokio::time::sleep(Duration::from_micros(rr.below(1500))).await;
+            }
+            match r.read_full_msgs::<AnyMessage>(&mut partial).await {
+                Ok(ms) => {
+                    for m in ms {
+                        let t = shr.t();
+                        let e = m.payload();
+                        shr.push(t, json!({"ev": "recv", "t": t, "ch": {"side": "B", "proto": m.channel(), "role": rrole}, "id": digest(&e), "len": e.len()}));
+                        got += 1;
+                    }
+                }
+                Err(err) => {
+                    let t = shr.t();
+                    shr.push(t, json!({"ev": "recv_err", "t": t, "err": err.to_string()}));
+                    return;
+                }
+            }
+        }
+    });
+    // ---- the driver: dispatch sends, poll the interface for Sent / Error
+    let total = msgs.len() as u64;
+    let shd = sh.clone();
+    let pidd = pid.clone();
+    let mut dr = Rng::new(rng.next_u64());
+    let driver: Handle = tokio::spawn(async move {
+        enum Either {
+            I(TcpInterface<AnyMessage>),
+            L(TcpListenerInterface<AnyMessage>),
+        }
+        let mut iface = match (ini, lis) {
+            (Some(i), _) => Either::I(i),
+            (_, Some(l)) => Either::L(l),
+            _ => return,
+        };
+        macro_rules! with {
+            ($i:ident => $e:expr) => {
+                match &mut iface {
+                    Either::I($i) => $e,
+                    Either::L($i) => $e,
+                }
+            };
+        }
+        let mut sent_ok = 0u64;
+        let handle = |ev: Option<InterfaceEvent<AnyMessage>>, sent_ok: &mut u64| -> bool {
+            match ev {
+                Some(InterfaceEvent::Sent(_, _)) => {
+                    *sent_ok += 1;
+                    true
+                }
+                Some(InterfaceEvent::Error(_, e)) => {
+                    let t = shd.t();
+                    shd.push(t, json!({"ev": "send_err", "t": t, "err": format!("{e:?}")}));
+                    false
+                }
+                Some(InterfaceEvent::Disconnected(_)) | None => false,
+                _ => true,
+            }
+        };
+        let mut dispatched = 0u64;
+        for m in msgs {
+            let e = m.payload();
+            let dbg = format!("{m:?}");
+            let c = m.channel();
+            let t = shd.t(); // BEFORE dispatch
+            shd.push(t, json!({"ev": "send", "t": t, "ch": {"side": "A", "proto": c, "role": srole}, "id": digest(&e), "len": e.len(),
+                "nseg": nseg(e.len()), "kind": kind_of(dbg.split_once('(').map(|x| x.1).unwrap_or(&dbg))}));
+            with!(i => i.dispatch(InterfaceCommand::Send(pidd.clone(), m)));
+            dispatched += 1;
+            match pattern {
+                "paced" => {
+                    while sent_ok < dispatched {
+                        let ev = with!(i => i.next().await);
+                        if !handle(ev, &mut sent_ok) {
+                            return;
+                        }
+                    }
+                }
+                "mixed" => {
+                    if dr.chance(1, 3) {
+                        if let Some(ev) = with!(i => i.next().now_or_never()) {
+                            if !handle(ev, &mut sent_ok) {
+                                return;
+                            }
+                        }
+                    }
+                }
+                _ => {}
+            }
+        }
+        expected.store(total, Ordering::SeqCst);
+        while sent_ok < total {
+            let ev = with!(i => i.next().await);
+            if !handle(ev, &mut sent_ok) {
+                return;
+            }
+        }
+        // keep the connection open until the reader is done
+        tokio::time::sleep(Duration::from_secs(3600)).await;
+    });
+    let hs: Vec<&Handle> = vec![&reader];
+    wait_all(&hs, &sh.log, limits).await;
+    if !reader.is_finished() {
+        stalled.push("reader");
+    }
+    reader.abort();
+    driver.abort();
+    let t = sh.t();
+    sh.push(t, json!({"ev": "quiesce", "t": t, "stalled": stalled}));
+    let mut evs = std::mem::take(&mut *sh.log.lock().unwrap());
+    evs.sort_by_key(|e| e.0);
+    let stack = format!("iface-{}-{}", if listener_mode { "listener" } else { "initiator" }, pattern);
+    let mut out = vec![json!({"ev": "open", "stack": stack, "run": run, "chans": chans})];
+    out.extend(evs.into_iter().map(|e| e.1));
+    out
+}
+
 pub fn trace(args: &Args) {
     let mut rng = Rng::new(args.seed());
     let runs = args.num("runs", 1);
     let runs2 = args.num("runs2", 1);
+    let runs3 = args.num("runs3", 0);
     let quota = args.num("msgs", 12) as usize;
     let limits = Limits { idle: Duration::from_secs(args.num("idle", 15)), deadline: Duration::from_secs(args.num("deadline", 180)) };
     let mut out = Ndjson::create(args.get("out"));
@@ -520,6 +734,22 @@ pub fn trace(args: &Args) {
     }
     for run in 0..runs2 {
         for e in rt.block_on(run_bearer2(&mut rng, runs + run, quota, limits)) {
+            out.ev(e);
+        }
+    }
+    let patterns: Vec<&'static str> = match args.opt("patterns") {
+        Some(p) => p.split(',').map(|x| match x {
+            "paced" => "paced",
+            "mixed" => "mixed",
+            _ => "burst",
+        }).collect(),
+        None => vec!["paced", "burst", "mixed"],
+    };
+    let imsgs = args.num("imsgs", 24) as usize;
+    for run in 0..runs3 {
+        let pattern = patterns[run as usize % patterns.len()];
+        let listener_mode = (run as usize / patterns.len()) % 2 == 1;
+        for e in rt.block_on(run_iface(&mut rng, runs + runs2 + run, imsgs, limits, listener_mode, pattern)) {
             out.ev(e);
         }
     }
